@@ -244,6 +244,19 @@ func runC17(c *Ctx) {
 						}
 					}
 				}
+				// no return of the case bypasses the drain
+				if drain != nil {
+					bypass := ""
+					for _, r := range returnsOf(loop) {
+						if !(entry == r.Block() || entry.Dominates(r.Block())) {
+							continue
+						}
+						if canReach(entryInstrOf(entry), r, map[ssa.Instruction]bool{drain: true}) || entryInstrOf(entry) == ssa.Instruction(r) {
+							bypass = p.Pos(r.Pos())
+						}
+					}
+					c.Check(bypass == "", "every exit of the shutdown case passes the drain of the item channel", p.Pos(sel.Pos()), "no return before the drain", "the return at "+bypass+" leaves the shard loop on shutdown without draining the item channel: requests that were accepted but are still queued behind a slow export (possible also without a timer) are dropped")
+				}
 				c.Check(okDrain && okSend && okOrder && retOK, "shutdown case drains the channel and flushes the remainder", p.Pos(sel.Pos()), "non-blocking drain ≺ sendItems under itemCount()>0 ≺ return", fmt.Sprintf("drain loop=%v, final send under itemCount()>0=%v, order=%v, return inside case=%v: data accepted before shutdown is dropped", okDrain, okSend, okOrder, retOK))
 			}
 		}
@@ -619,6 +632,7 @@ func runC17(c *Ctx) {
 	}
 	runC17Metadata(c)
 	runC17Fits(c, funcs)
+	runC17FreshBatch(c, funcs)
 }
 
 func entryInstrOf(b *ssa.BasicBlock) ssa.Instruction { return b.Instrs[0] }
